@@ -289,7 +289,8 @@ def lexBlockComment (rest : Bytes) (pos : Pos) : Try Scanned :=
         | none => .panic
         | some rest' =>
           let chars := rest.take n
-          let isDoc := (chars[2]?.map (·.toNat)) = some 42
+          -- `chars.len() > 4 && chars[2] == b'*'` (since fix c949025: `/**/` is an empty block comment)
+          let isDoc := 4 < chars.length ∧ (chars[2]?.map (·.toNat)) = some 42
           -- `&chars[3..(chars.len() - 2)]` resp. `&chars[2..(chars.len() - 2)]`
           match slice chars (if isDoc then 3 else 2) (chars.length - 2) with
           | none => .panic
@@ -418,7 +419,11 @@ def processRaw (st : PState) (t : Token) : PState :=
     { st with pending := some t, out := match st.pending with | some p => st.out ++ [p] | none => st.out }
   if t.kind = .int then
     let v := digitsVal t.text 0
-    if twoPow31 < v ∨ (v = twoPow31 ∧ st.pending.isNone) then
+    -- `follows_minus` (since fix d5c9a21: 2147483648 is only accepted directly after `-`)
+    let followsMinus : Bool := match st.pending with
+      | some p => p.kind = .op ∧ p.text = [45]
+      | none => false
+    if twoPow31 < v ∨ (v = twoPow31 ∧ followsMinus = false) then
       yield { st with errs := st.errs ++ [⟨t.start, t.stop, .int⟩] } t
     else if v = twoPow31 then
       match st.pending with
@@ -463,8 +468,8 @@ inductive Valid : Bytes → Prop where
   | four (b0 b1 b2 b3 : UInt8) (r : Bytes) : 240 ≤ b0.toNat → isCont b1 = true →
       isCont b2 = true → isCont b3 = true → Valid r → Valid (b0 :: b1 :: b2 :: b3 :: r)
 
-/-- the text contains the four bytes `/**/` somewhere (decidable side condition of
-`scan_total_partial`; see finding C05-F1) -/
+/-- the text contains the four bytes `/**/` somewhere (historical: side condition of the former
+`scan_total_partial`, finding C05-F1, fixed by c949025) -/
 def hasEmptyDoc : Bytes → Bool
   | [] => false
   | a :: rest =>
